@@ -105,6 +105,8 @@ def run(scn, stats):
     try:
         r.run()
         if scn.get("rerun") and r.at_rest() and drv.status() == "failed":
+            if scn["rerun"] == 2:
+                r.step({"op": "output"})  # a provider renders the output of the failed run first
             r.step({"op": "rerun", "tasks": None})
             r.outcomes = {}
             if drv.status() == "resuming":
@@ -133,8 +135,8 @@ def strategy(tier):
     return st.builds(
         lambda s, pts, rr: dict(s, restore_points=sorted(pts), rerun=rr),
         base,
-        st.sets(st.integers(0, 40), min_size=1, max_size=12),
-        st.booleans(),
+        st.one_of(st.sets(st.integers(0, 40), min_size=1, max_size=12), st.just(set(range(0, 80))), st.just(set(range(1, 80, 2)))),
+        st.sampled_from([0, 1, 2, 2]),
     )
 
 
